@@ -135,6 +135,8 @@ class MaintWorld(SysGlobals, CompWorld):
         self.system = System()
         self.env = self.system.env
         self.m = Maintainer('mt', INF if cap is None else cap, value=100)
+        if self.m.total_capacity != (INF if cap is None else cap):
+            raise Violation('capacity', f'maintainer built with capacity {cap} reports total_capacity {self.m.total_capacity}')
         self.tlog = []
         self.targets = []
         for i, t in enumerate(params['targets']):
